@@ -11,10 +11,10 @@ pub fn prop() -> Prop {
     Prop {
         id: "C15",
         level: "model_checking",
-        rule: "values = 30 (all types, absent, empty string, strings with quote, comma, CR, LF, tab, blanks at both ends, non-ASCII, strings spelled like keywords and numbers, 64-bit and fractional numbers, nested values holding such strings); csv: every row of 1..2 selections (3 selections: quick a slice of 2 700 rows, thorough all 27 000) over the values x 4 sets of selection names (plain; with blank, comma, quote; non-ASCII; two selections sharing a name) and multi-record inputs; rows of 5 selections with a field of 15..8192 characters (quote, comma, line break or non-ASCII at the far end; long nested cells) in each column in turn; 100 and 1000 records in one run; text: every row of 1..2 selections over 24 values with an unambiguous spelling x every option set within 3 deviations of the defaults (thorough: the full product of 7 776 option sets) over items separator(4), string prefix/postfix(3), null/true/false keywords(3,2,2), missing-value keyword(3), --headers(2), escape sequences(5, two of them with a replacement that contains a character another sequence escapes), row separator(3); non-trivial = the row holds a string with a special character, a nested value, an absent value or a keyword look-alike; distinct by construction",
+        rule: "values = 30 (all types, absent, empty string, strings with quote, comma, CR, LF, tab, blanks at both ends, non-ASCII, strings spelled like keywords and numbers, 64-bit and fractional numbers, nested values holding such strings); csv: every row of 1..2 selections (3 selections: quick a slice of 2 700 rows, thorough all 27 000) over the values x 4 sets of selection names (plain; with blank, comma, quote; non-ASCII; two selections sharing a name) and multi-record inputs; rows of 5 selections with a field of 15..8192 characters (quote, comma, line break or non-ASCII at the far end; long nested cells) in each column in turn; 100 and 1000 records in one run; text: every row of 1..2 selections over 24 values with an unambiguous spelling x every option set within 3 deviations of the defaults (thorough: the full product of 7 776 option sets) over items separator(4), string prefix/postfix(3), null/true/false keywords(3,2,2), missing-value keyword(3), --headers(2), escape sequences(5, two of them with a replacement that contains a character another sequence escapes), row separator(3); ~60 numbers in less common forms (17 significant digits, exponent forms, the ends of the 64-bit and double ranges) read from the input, taken out of a list by a function, re-made by parse and passed through a pipe, as csv and text fields that must read back as exactly that number; non-trivial = the row holds a string with a special character, a nested value, an absent value or a keyword look-alike; distinct by construction",
         explanation: "csv output is read back by an independent RFC 4180 reader (skip-initial-space): header = the names in order, N fields per record, each field recovered by type (string content, decimal spelling by exact value, True/False/null, concise JSON re-read by the strict reader and free of insignificant whitespace); text output is compared byte for byte with the rendering the option help pins (prefix + escaped characters + postfix, keywords, separators)",
         assumptions: COMMON_ASSUMPTIONS.to_vec(),
-        guards: vec!["equals-signs-inside-the-selection", "non-ascii-text-before-the-selection-name", "long-fields", "quote-in-string", "comma-in-string", "newline-in-string", "absent-field", "nested-with-special-string", "header-with-special-name", "escape-sequence-applied", "missing-keyword-printed", "text-headers", "three-fields"],
+        guards: vec!["number-in-a-less-common-form", "equals-signs-inside-the-selection", "non-ascii-text-before-the-selection-name", "long-fields", "quote-in-string", "comma-in-string", "newline-in-string", "absent-field", "nested-with-special-string", "header-with-special-name", "escape-sequence-applied", "missing-keyword-printed", "text-headers", "three-fields"],
         budget_s: (100, 1800),
         single_worker: false,
         run,
@@ -463,6 +463,72 @@ fn text_part(ctx: &mut Ctx) {
     ctx.level_done(&format!("text:{}-option-sets-within-{kmax}-deviations", sets.len()));
 }
 
+/// Numbers in less common forms (17 significant digits, exponent forms, the ends of the 64-bit and double ranges), read
+/// from the input, taken out of a collection by a function, and re-made by parse: the csv / text field must be a decimal
+/// spelling that reads back as exactly that number.
+fn number_fields(ctx: &mut Ctx) {
+    let mut lits: Vec<String> = crate::refmodel::spell::boundary_numbers().iter().filter(|n| !n.starts_with("-0")).map(|s| s.to_string()).collect();
+    for l in ["0.30000000000000004", "123456789.12345679", "-122.41941550000001", "0.9999999999999999", "12345678.123456789", "9.247108346276967", "2.2250738585072014e-308", "4.9406564584124654e-324", "1.7976931348623157e308", "14.285714285714286", "0.1", "1e21", "1e-7", "123456789012345680000", "1.5e-10", "100000000000000000000", "0.000001", "33.333333333333336", "2.675", "1e15", "1e16", "123456789012345678", "4503599627370496.5"] {
+        lits.push(l.to_string());
+    }
+    for (li, l) in lits.iter().enumerate() {
+        if !ctx.mine() {
+            continue;
+        }
+        let v = json::parse_str(l);
+        let input = format!("{{\"n\":{l},\"l\":[0,{l}]}}\n");
+        let selects = ["--select=.n=a", "--select=(get .l 1)=b", "--select=(parse (stringify .n))=c", "--select=(| .l (last .))=d"];
+        for style in ["csv", "text"] {
+            let mut args: Vec<String> = vec![format!("--output-style={style}")];
+            args.extend(selects.iter().map(|s| s.to_string()));
+            if style == "text" {
+                args.push("--items-seperator=|".into());
+            }
+            let case = Case::owned(args, input.clone().into_bytes());
+            let obs = ctx.run(&case);
+            ctx.case_done();
+            ctx.trace_validated();
+            ctx.nontrivial();
+            ctx.guard("number-in-a-less-common-form");
+            ctx.transition(&("number-field", li, style));
+            let sig = format!("{style} number field {l}");
+            let text = obs.out_str();
+            let fields: Vec<String> = if style == "csv" {
+                match csv::read(&text, "\n") {
+                    Ok(r) if r.len() == 2 && r[1].iter().all(|f| !f.quoted) => r[1].iter().map(|f| f.text.clone()).collect(),
+                    _ => vec![],
+                }
+            } else {
+                text.trim_end_matches('\n').split('|').map(|x| x.to_string()).collect()
+            };
+            let mut fail: Option<String> = None;
+            if !obs.res.is_ok() || fields.len() != 4 {
+                fail = Some(format!("{} fields instead of 4", fields.len()));
+            } else {
+                for (j, f) in fields.iter().enumerate() {
+                    let ok = match &v {
+                        V::Num(Num::Int(i)) => Dec::parse(f).map(|d| d.eq(&Dec::parse(&i.to_string()).unwrap())).unwrap_or(false),
+                        V::Num(Num::F(x)) => Dec::parse(f).is_some() && f.parse::<f64>().map(|y| y == *x).unwrap_or(false),
+                        _ => false,
+                    };
+                    if !ok {
+                        fail = Some(format!("field {j} is {f:?}, which does not read back as {l}"));
+                        break;
+                    }
+                }
+            }
+            match fail {
+                Some(e) => {
+                    ctx.outcome("violation");
+                    ctx.violation("number-field-not-recovered", &sig, &[case.clone()], format!("four fields that read back as {l}"), format!("{e}; stdout {text:?}"));
+                }
+                None => ctx.outcome("number-ok"),
+            }
+        }
+    }
+    ctx.level_done(&format!("numbers-in-less-common-forms({}-numbers-x-4-routes-x-csv,text)", lits.len()));
+}
+
 /// size thresholds for csv: long fields (quotes / commas / line breaks at the far end), long nested cells,
 /// 4 and 5 selections, many records in one run
 fn csv_sizes(ctx: &mut Ctx) {
@@ -573,6 +639,7 @@ fn csv_sizes(ctx: &mut Ctx) {
 fn run(ctx: &mut Ctx) {
     csv_part(ctx);
     csv_sizes(ctx);
+    number_fields(ctx);
     text_part(ctx);
     let _ = Tier::Quick;
 }
